@@ -27,6 +27,7 @@ pub fn spec() -> Spec {
         ],
         streams: vec![
             Stream { name: "polynomial", quick: 400_000, thorough: 10_000_000, run: run_poly },
+            Stream { name: "small-scale-line", quick: 100_000, thorough: 3_000_000, run: run_small_line },
             Stream { name: "circle-fit", quick: 100_000, thorough: 3_000_000, run: run_circle },
             Stream { name: "three-points", quick: 400_000, thorough: 10_000_000, run: run_three },
             Stream { name: "ransac", quick: 6000, thorough: 200_000, run: run_ransac },
@@ -210,14 +211,62 @@ fn run_poly(c: &mut Ctx) {
     }
 }
 
+/// straight-line fits on tightly clustered, small-scale abscissae (spread 1e-8..1e-2): both the
+/// degree-1 least-squares fit and the series best-fit line must recover an exact line.  The
+/// tolerance carries the cancellation factor 1 + (centre/spread)^2 of the 2x2 normal equations.
+fn run_small_line(c: &mut Ctx) {
+    let w = c.rng.log_range(1e-8, 1e-2);
+    let a = *c.rng.pick(&[0.0, 0.0, 3.0, -10.0, 100.0]) * w;
+    let n = c.rng.int(3, 30);
+    let mut xs: Vec<f64> = (0..n).map(|i| a + w * (2.0 * (i as f64 + c.rng.range(0.0, 0.9)) / n as f64 - 1.0)).collect();
+    xs.sort_by(|p, q| p.partial_cmp(q).unwrap());
+    xs.dedup();
+    if xs.len() < 3 {
+        return;
+    }
+    let (b, m) = (c.rng.range(-5.0, 5.0), c.rng.range(-5.0, 5.0) * *c.rng.pick(&[1.0, 1e3, 1e6]));
+    let ys: Vec<f64> = xs.iter().map(|x| b + m * x).collect();
+    c.family("small-scale-line");
+    c.set_case(json!({"xs": xs, "ys": ys, "b": b, "m": m, "spread": w, "centre": a}));
+    let kappa = 1.0 + (a / w).powi(2);
+    let reach = a.abs() + w;
+    let tol = 1e4 * U * kappa * (b.abs() + m.abs() * reach + 1e-300);
+    let class = if a == 0.0 { "centred" } else { "off-centre" };
+    let r = guard(|| Polynomial::<2>::least_squares(&xs, &ys, None).c);
+    c.eval();
+    match r {
+        Ok(cf) => {
+            let err = (cf[0] - b).abs() + (cf[1] - m).abs() * reach;
+            c.close("Polynomial::least_squares", "exact line recovered on small-scale abscissae", class, err, 0.0, tol);
+        }
+        Err(p) => {
+            c.check("Polynomial::least_squares", "succeeds on small-scale abscissae", class, false, || format!("{} {}", p.sig(), p.msg));
+        }
+    }
+    if let Ok(Ok(s)) = guard(|| Series1::try_new(xs.clone(), ys.clone())) {
+        let r = guard(|| s.best_fit_line());
+        c.eval();
+        match r {
+            Ok(l) => {
+                let err = (l.b() - b).abs() + (l.m() - m).abs() * reach;
+                c.close("Series1::best_fit_line", "exact line recovered on small-scale abscissae", class, err, 0.0, tol);
+            }
+            Err(p) => {
+                c.check("Series1::best_fit_line", "no-panic", class, false, || format!("{} {}", p.sig(), p.msg));
+            }
+        }
+    }
+    c.distinct(&(xs.len(), xs[0].to_bits(), m.to_bits()));
+}
+
 fn run_circle(c: &mut Ctx) {
     let rad = c.rng.log_range(1e-2, 1e2);
     let offm = *c.rng.pick(&[0.0, 1.0, 100.0, 1e3]);
     let ctr = Point2::new(c.rng.range(-offm, offm), c.rng.range(-offm, offm));
     let start = c.rng.range(0.0, TAU);
     let sweep = c.rng.range(PI / 3.0, TAU);
-    let n = c.rng.int(5, 200);
-    let noisy = c.rng.chance(0.5);
+    let n = if c.rng.chance(0.15) { c.rng.int(3, 5) } else { c.rng.int(5, 200) };
+    let noisy = n >= 5 && c.rng.chance(0.5);
     let sigma = if noisy { rad * c.rng.log_range(1e-5, 1e-2) } else { 0.0 };
     let pts: Vec<Point2> = (0..n)
         .map(|i| {
